@@ -247,17 +247,6 @@ Lemma fold_reg {A} (f : A -> dmstate -> dmstate) :
   forall l s, m_reg (fold_left (fun s x => f x s) l s) = m_reg s.
 Proof. intros Hf. induction l as [|x l IH]; intros s; cbn; [reflexivity | now rewrite IH, Hf]. Qed.
 
-Lemma assert_went_sync fm w s : dm_synced0 fm s -> dm_synced0 fm (assert_went w s).
-Proof.
-  intros H. unfold assert_went. destruct (w_t w <? 0); [now apply assert_uri_sync|].
-  destruct (negb (amem (w_e w) (d_ids s)) || negb (w_del w)); repeat apply assert_uri_sync; exact H.
-Qed.
-Lemma assert_went_reg w s : m_reg (assert_went w s) = m_reg s.
-Proof.
-  unfold assert_went. destruct (w_t w <? 0); [apply assert_uri_reg|].
-  destruct (negb (amem (w_e w) (d_ids s)) || negb (w_del w)); now rewrite ?assert_uri_reg.
-Qed.
-
 Lemma set_fs_sync fm fs s : dm_synced0 fm s -> dm_synced0 fm (set_fs fm fs s).
 Proof. destruct fm; dsync. Qed.
 Lemma set_data_sync fm st s : dm_synced0 fm s -> dm_synced0 fm (set_data st s).
@@ -266,10 +255,15 @@ Proof. dsync. Qed.
 Lemma dm_store_sync fl id es s : dm_synced0 (f_fs fl) s -> dm_synced0 (f_fs fl) (dm_store fl id es s).
 Proof.
   intros H. unfold dm_store. destruct es; [exact H|]. apply set_data_sync.
+  apply (fold_sync _ (fun u s => assert_uri u s)); [intros; now apply assert_uri_sync|].
   destruct (assoc id (m_fs s)); [now apply set_fs_sync | exact H].
 Qed.
 Lemma dm_store_reg fl id es s : m_reg (dm_store fl id es s) = m_reg s.
-Proof. unfold dm_store. destruct es; [reflexivity|]. cbn. now destruct (assoc id (m_fs s)). Qed.
+Proof.
+  unfold dm_store. destruct es; [reflexivity|]. cbn [set_data m_reg].
+  rewrite (fold_reg (fun u s => assert_uri u s)) by apply assert_uri_reg.
+  now destruct (assoc id (m_fs s)).
+Qed.
 
 Lemma dm_create_sync0 fm n pub s : dm_synced0 fm s -> dm_synced0 fm (dm_create n pub s).
 Proof.
@@ -332,14 +326,12 @@ Proof.
     - destruct (assoc (r_id r) (m_fs s)) as [f|]; [destruct (Z.eqb (fs_id f) fsid)|]; intros [= <-]; now split. }
   destruct chk as [s1|]; [|now split]. destruct (Hchk s1 eq_refl) as [H1 Hc1].
   set (s2 := fold_left _ (flat_map went_exps es) s1).
-  set (s3 := fold_left _ es s2).
-  set (s4 := dm_store fl (r_id r) (map ent_of es) s3).
+  set (s4 := dm_store fl (r_id r) (map ent_of es) s2).
   assert (H4 : dm_synced (f_fs fl) s4).
   { split.
-    - apply dm_store_sync. apply (fold_sync _ (fun w s => assert_went w s)); [intros; now apply assert_went_sync|].
+    - apply dm_store_sync.
       apply (fold_sync _ (fun e s => assert_ns e s)); [intros; now apply assert_ns_sync | exact H1].
-    - subst s4 s3 s2. rewrite dm_store_reg.
-      rewrite (fold_reg (fun w s => assert_went w s)) by apply assert_went_reg.
+    - subst s4 s2. rewrite dm_store_reg.
       rewrite (fold_reg (fun e s => assert_ns e s)) by apply assert_ns_reg. exact Hc1. }
   destruct fin; [|exact H4]. destruct (assoc (r_id r) (m_fs s4)); [|exact H4]. unfold dm_synced. cbn.
   destruct H4 as [H40 Hc4]. split.
@@ -582,21 +574,25 @@ Lemma fold_sim {A} (f : A -> dmstate -> dmstate) :
   forall l s s', dsim s s' -> dsim (fold_left (fun s x => f x s) l s) (fold_left (fun s x => f x s) l s').
 Proof. intros Hf. induction l as [|x l IH]; intros s s' H; cbn; [exact H | apply IH, Hf, H]. Qed.
 
-Lemma assert_went_sim w s s' : dsim s s' -> dsim (assert_went w s) (assert_went w s').
-Proof.
-  intros H. unfold assert_went.
-  assert (Hids : d_ids s' = d_ids s) by (destruct H as (q' & -> & _); reflexivity). rewrite Hids.
-  destruct (w_t w <? 0); [now apply assert_uri_sim|].
-  destruct (negb (amem (w_e w) (d_ids s)) || negb (w_del w)); repeat apply assert_uri_sim; exact H.
-Qed.
-
 Lemma set_fs_sim fm fs s s' : dsim s s' -> dsim (set_fs fm fs s) (set_fs fm fs s').
+Proof. apply dsim_lift; intros; reflexivity. Qed.
+
+Lemma set_data_sim st s s' : dsim s s' -> dsim (set_data st s) (set_data st s').
 Proof. apply dsim_lift; intros; reflexivity. Qed.
 
 Lemma dm_store_sim fl id es s s' : dsim s s' -> dsim (dm_store fl id es s) (dm_store fl id es s').
 Proof.
-  apply dsim_lift; intros; unfold dm_store; destruct es; try reflexivity; cbn;
-    destruct (assoc id (m_fs _)); reflexivity.
+  intros H. unfold dm_store. destruct es as [|e es]; [exact H|].
+  assert (Hf : m_fs s' = m_fs s) by (destruct H as (q' & -> & _); reflexivity). rewrite Hf.
+  set (s1 := match assoc id (m_fs s) with Some f => _ | None => s end).
+  set (s1' := match assoc id (m_fs s) with Some f => _ | None => s' end).
+  assert (H1 : dsim s1 s1') by (subst s1 s1'; destruct (assoc id (m_fs s)); [now apply set_fs_sim | exact H]).
+  assert (E1 : d_data s1' = d_data s1 /\ d_ids s1' = d_ids s1) by (destruct H1 as (q' & -> & _); now split).
+  destruct E1 as [-> ->].
+  set (s2 := fold_left _ _ s1). set (s2' := fold_left _ _ s1').
+  assert (H2 : dsim s2 s2') by (subst s2 s2'; apply (fold_sim (fun u s => assert_uri u s)); [intros; now apply assert_uri_sim | exact H1]).
+  assert (E2 : d_data s2' = d_data s2) by (destruct H2 as (q' & -> & _); reflexivity). rewrite E2.
+  now apply set_data_sim.
 Qed.
 
 Lemma dm_create_sim n pub s s' : dsim s s' -> dsim (dm_create n pub s) (dm_create n pub s').
@@ -632,7 +628,7 @@ Proof.
     destruct chk as [s1|], chk' as [s1'|]; try contradiction; [|now split].
     set (s4 := dm_store fl _ _ _). set (s4' := dm_store fl _ _ _).
     assert (H4 : dsim s4 s4').
-    { subst s4 s4'. apply dm_store_sim. apply (fold_sim (fun w s => assert_went w s)); [intros; now apply assert_went_sim|].
+    { subst s4 s4'. apply dm_store_sim.
       apply (fold_sim (fun e s => assert_ns e s)); [intros; now apply assert_ns_sim | exact Hchk]. }
     destruct fin; [|now split].
     destruct H4 as (q4 & E4 & Hq4). rewrite E4. cbn [m_fs with_seq].
@@ -819,15 +815,12 @@ Qed.
 
 Lemma assert_ns_istep e s : istep s (assert_ns e s).
 Proof. apply istep_frame; unfold assert_ns; destruct (zmem e (m_ns s)); reflexivity. Qed.
-Lemma assert_went_istep w s : istep s (assert_went w s).
-Proof.
-  unfold assert_went. destruct (w_t w <? 0); [apply assert_uri_istep|].
-  destruct (negb (amem (w_e w) (d_ids s)) || negb (w_del w)); [|apply assert_uri_istep].
-  eapply istep_trans; [apply assert_uri_istep|]. eapply istep_trans; apply assert_uri_istep.
-Qed.
 Lemma dm_store_istep fl id es s : istep s (dm_store fl id es s).
 Proof.
-  apply istep_frame; unfold dm_store; destruct es; try reflexivity; cbn; destruct (assoc id (m_fs s)); reflexivity.
+  unfold dm_store. destruct es as [|e es]; [apply istep_refl|].
+  eapply istep_trans; [|apply istep_frame; reflexivity].
+  eapply istep_trans; [|apply (fold_istep (fun u s => assert_uri u s)); intros; apply assert_uri_istep].
+  destruct (assoc id (m_fs s)); [apply istep_frame; reflexivity | apply istep_refl].
 Qed.
 Lemma set_fs_istep fm fs s : istep s (set_fs fm fs s).
 Proof. apply istep_frame; reflexivity. Qed.
@@ -862,7 +855,6 @@ Proof.
     assert (H4 : istep s s4).
     { eapply istep_trans; [exact Hchk|]. subst s4.
       eapply istep_trans; [|apply dm_store_istep].
-      eapply istep_trans; [|apply (fold_istep (fun w s => assert_went w s)); intros; apply assert_went_istep].
       apply (fold_istep (fun e s => assert_ns e s)); intros; apply assert_ns_istep. }
     destruct fin; [|exact H4]. destruct (assoc (r_id r) (m_fs s4)); [|exact H4]. cbn [fst].
     eapply istep_trans; [exact H4|]. eapply istep_trans; [apply dm_store_istep | apply set_fs_istep].
@@ -910,15 +902,12 @@ Proof.
   apply rstep_frame; unfold assert_uri; destruct (assoc u (d_ids s)); try reflexivity;
     now destruct (seq_next (m_seq s)).
 Qed.
-Lemma assert_went_rstep w s : rstep s (assert_went w s).
-Proof.
-  unfold assert_went. destruct (w_t w <? 0); [apply assert_uri_rstep|].
-  destruct (negb (amem (w_e w) (d_ids s)) || negb (w_del w)); [|apply assert_uri_rstep].
-  eapply rstep_trans; [apply assert_uri_rstep|]. eapply rstep_trans; apply assert_uri_rstep.
-Qed.
 Lemma dm_store_rstep fl id es s : rstep s (dm_store fl id es s).
 Proof.
-  apply rstep_frame; unfold dm_store; destruct es; try reflexivity; cbn; destruct (assoc id (m_fs s)); reflexivity.
+  unfold dm_store. destruct es as [|e es]; [apply rstep_refl|].
+  eapply rstep_trans; [|apply rstep_frame; reflexivity].
+  eapply rstep_trans; [|apply (fold_rstep (fun u s => assert_uri u s)); intros; apply assert_uri_rstep].
+  destruct (assoc id (m_fs s)); [apply rstep_frame; reflexivity | apply rstep_refl].
 Qed.
 Lemma set_fs_rstep fm fs s : rstep s (set_fs fm fs s).
 Proof. apply rstep_frame; reflexivity. Qed.
@@ -997,7 +986,6 @@ Proof.
     assert (H4 : rstep s s4).
     { eapply rstep_trans; [exact Hchk|]. subst s4.
       eapply rstep_trans; [|apply dm_store_rstep].
-      eapply rstep_trans; [|apply (fold_rstep (fun w s => assert_went w s)); intros; apply assert_went_rstep].
       apply (fold_rstep (fun e s => assert_ns e s)); intros; apply assert_ns_rstep. }
     destruct fin; [|exact H4]. destruct (assoc (r_id r) (m_fs s4)); [|exact H4]. cbn [fst].
     eapply rstep_trans; [exact H4|]. eapply rstep_trans; [apply dm_store_rstep | apply set_fs_rstep].
